@@ -111,7 +111,22 @@ def replay_nodes(rule, n, kwargs=None):
             g = getattr(og, rule)(n, **kw)
             x = g.points
             bad = len(x) != n or bool(np.any(np.diff(x) <= 0)) or bool(np.any(x < g.domain[0])) or bool(np.any(x > g.domain[1]))
-            return bad, dict(rule=rule, n=n, kwargs=kw, points=x.tolist(), domain=[float(v) for v in g.domain])
+            info = dict(rule=rule, n=n, kwargs=kw, points=x.tolist(), domain=[float(v) for v in g.domain])
+            # the closed-form rules' defining formulas, typed here independently of the implementation
+            want_x = want_w = None
+            if rule == "GaussChebyshevLobatto":
+                i = np.arange(n)
+                want_x = -np.cos(i * np.pi / (n - 1))
+                want_w = np.pi / (n - 1) * np.sin(i * np.pi / (n - 1)) * np.where((i == 0) | (i == n - 1), 0.5, 1.0)
+            elif rule == "RectangleRuleSineEndPoints":
+                i = np.arange(1, n + 1)
+                want_x = 2.0 * i / (n + 1) - 1
+                want_w = np.array([4.0 / (n + 1) * sum((1 - np.cos(mm * np.pi)) / (mm * np.pi) * np.sin(mm * np.pi * ii / (n + 1)) for mm in range(1, n + 1)) for ii in i])
+            if want_x is not None and len(x) == n:
+                info.update(weights=g.weights.tolist(), defined_weights=want_w.tolist())
+                if not np.allclose(x, want_x, rtol=1e-12, atol=1e-14) or not np.allclose(g.weights, want_w, rtol=1e-10, atol=1e-13):
+                    bad = True
+            return bad, info
     return replay
 
 
